@@ -110,7 +110,9 @@ func (x *Exec) lookupIdent(st *State, fr *Frame, name string, sc *scope) (Val, e
 	}
 	if fr != nil {
 		if sc.preferLocal {
-			if b, ok := fr.names[name]; ok && b.isAddr {
+			// the variable's current value: its cell when its address is taken, its latest
+			// definition when it was reassigned
+			if b, ok := fr.names[name]; ok {
 				if v, ok := x.bindingVal(st, b); ok {
 					return v, nil
 				}
